@@ -46,25 +46,28 @@ fn soundness(
     rep: &mut Report,
     input: &[u8],
     zl: bool,
-    ring: bool,
+    ring_size: usize,
     chunking: &Chunking,
     budgets: &[usize],
     what: &str,
     out_hint: usize,
 ) -> Option<DecRun> {
-    let fill = ring_fill(32768);
+    // ring_size 0 = flat buffer; otherwise a power-of-two ring (32 KiB, or smaller: a distance
+    // larger than the ring is then invalid, a defined error of the decoder)
+    let ring = ring_size != 0;
+    let fill = ring_fill(ring_size.max(1));
     let base = if zl { F_ZLIB } else { 0 };
-    let mode = if ring { BufMode::Ring(32768) } else { BufMode::Flat(out_hint + 700) };
+    let mode = if ring { BufMode::Ring(ring_size) } else { BufMode::Flat(out_hint + 700) };
     let lens = chunking.lens(input.len());
     let mut d = DecompressorOxide::new();
     let run = drive_core(&mut d, input, base, &mode, &lens, budgets, if ring { Some(&fill) } else { None });
-    rep.count(if ring { "runs_ring" } else { "runs_flat" });
+    rep.count(if !ring { "runs_flat" } else if ring_size == 32768 { "runs_ring" } else { "runs_small_ring" });
     let det = |run: &DecRun| {
         Json::obj(vec![
             ("input_hex", Json::s(&hex_short(input, 600))),
             ("input_len", Json::u(input.len())),
             ("zlib", Json::Bool(zl)),
-            ("mode", Json::s(if ring { "ring32768 (pre-filled ((i*7+13)%251)+1)" } else { "flat" })),
+            ("mode", Json::s(&if ring { format!("ring{} (pre-filled ((i*7+13)%251)+1)", ring_size) } else { "flat".to_string() })),
             ("chunking", Json::s(&chunking.describe())),
             ("budgets", Json::s(&format!("{:?}", budgets))),
             ("what", Json::s(what)),
@@ -103,7 +106,7 @@ fn soundness(
                     Verdict::Complete { .. } => "wrong-output-or-consumed".to_string(),
                 };
                 rep.violation(
-                    &format!("C04:{}:{}", kind, if ring { "ring" } else { "flat" }),
+                    &format!("C04:{}:{}", kind, if !ring { "flat" } else if ring_size == 32768 { "ring" } else { "small-ring" }),
                     format!("decoder reported Done (consumed {}, {} bytes out) but the reference says {:?} ({} bytes out) for {}", run.consumed, run.out.len(), r.verdict, r.out.len(), what),
                     det(&run),
                 );
@@ -150,7 +153,8 @@ fn targeted(ctx: &Ctx, rep: &mut Report, k: u64) {
     let what = format!("targeted violation {:?} (deep={}, {})", f.kind, deep, f.desc);
     let mut accepted = false;
     for (chunking, budgets) in schedules(&mut rng, f.bytes.len(), ctx.quick()) {
-        for ring in [false, true] {
+        let small = SMALL_RINGS[rng.below(SMALL_RINGS.len())];
+        for ring in [0usize, 32768, small] {
             // DistanceBeforeStart is only a violation with a flat buffer (ring semantics differ)
             if let Some(run) = soundness(rep, &f.bytes, f.zlib, ring, &chunking, &budgets, &what, r.out.len()) {
                 if run.status == TINFLStatus::Done {
@@ -215,6 +219,31 @@ fn wrapper_soundness(rep: &mut Report, input: &[u8], zl: bool, rng: &mut Rng, wh
     }
 }
 
+const SMALL_RINGS: [usize; 6] = [256, 512, 1024, 4096, 8192, 16384];
+
+/// (A') valid streams (for a 32 KiB window) decoded into rings smaller than their largest
+/// distance: the decoder must never report Done where the reference, given the same ring,
+/// reports a distance beyond the ring.
+fn small_rings(ctx: &Ctx, rep: &mut Report, k: u64) {
+    let mut rng = ctx.rng("small_rings", k);
+    let s = valid_stream(&mut rng, k % 4 != 0);
+    rep.eval();
+    let what = format!("unmodified valid {} stream decoded in a ring smaller than the window", if s.zlib { "zlib" } else { "raw" });
+    let sch = schedules(&mut rng, s.bytes.len(), ctx.quick());
+    let ring = SMALL_RINGS[(k % SMALL_RINGS.len() as u64) as usize];
+    let r = ref_inflate(&s.bytes, Opts::fmt(s.zlib).ring(&ring_fill(ring), 0));
+    let beyond = matches!(r.verdict, Verdict::Invalid { kind, .. } if kind.name() == "DistanceBeyondRing");
+    rep.count(if beyond { "small_ring_streams_with_distance_beyond_ring" } else { "small_ring_streams_other" });
+    for (chunking, budgets) in sch {
+        soundness(rep, &s.bytes, s.zlib, ring, &chunking, &budgets, &what, s.plain.len());
+    }
+    if beyond {
+        let mut h = Hasher::new();
+        h.bytes(&s.bytes).u64(ring as u64);
+        rep.nontrivial(h.finish());
+    }
+}
+
 fn valid_stream(rng: &mut Rng, small: bool) -> grammar::GenStream {
     let zl = rng.bool();
     let mut o = if small { grammar::GenOpts::small(zl) } else { grammar::GenOpts::medium(zl) };
@@ -233,7 +262,11 @@ fn mutants(ctx: &Ctx, rep: &mut Report, k: u64) {
         rep.count(&format!("mutant_{}", how));
         let zl = if rng.chance(1, 8) { !a.zlib } else { a.zlib };
         let what = format!("generic mutant ({}) of a valid {} stream", how, if a.zlib { "zlib" } else { "raw" });
-        let ring = rng.bool();
+        let ring = match rng.below(5) {
+            0 | 1 => 0usize,
+            2 | 3 => 32768,
+            _ => SMALL_RINGS[rng.below(SMALL_RINGS.len())],
+        };
         let sch = schedules(&mut rng, m.len(), true);
         let (chunking, budgets) = rng.pick(&sch).clone();
         soundness(rep, &m, zl, ring, &chunking, &budgets, &what, a.plain.len());
@@ -309,15 +342,18 @@ pub fn run(ctx: &Ctx, rep: &mut Report) {
     let n_t = ctx.n(26 * 2 * 60, 26 * 2 * 1200);
     let n_m = ctx.n(20_000, 400_000);
     let n_p = ctx.n(3000, 60_000);
-    for k in ctx.cases(n_t + n_m + n_p) {
+    let n_r = ctx.n(3000, 60_000);
+    for k in ctx.cases(n_t + n_m + n_p + n_r) {
         rep.cur_case = k;
         crate::ctx::begin_case(k);
         if k < n_t {
             targeted(ctx, rep, k);
         } else if k < n_t + n_m {
             mutants(ctx, rep, k - n_t);
-        } else {
+        } else if k < n_t + n_m + n_p {
             prefixes(ctx, rep, k - n_t - n_m);
+        } else {
+            small_rings(ctx, rep, k - n_t - n_m - n_p);
         }
     }
     if ctx.only_case.is_none() && ctx.tier != crate::ctx::Tier::Tiny {
